@@ -201,7 +201,11 @@ def main(argv):
             new_violations.append(v)
 
     # ---- report
-    os.makedirs(os.path.join(ROOT, "replays", pid), exist_ok=True)
+    rdir = os.path.join(ROOT, "replays", pid)
+    os.makedirs(rdir, exist_ok=True)
+    for old in os.listdir(rdir):  # replay files always describe the latest run
+        if old.endswith(".json"):
+            os.unlink(os.path.join(rdir, old))
     out_lines = []
     for v in new_violations:
         path = os.path.join(ROOT, "replays", pid, sanitize(v["sig"]) + ".json")
